@@ -100,6 +100,8 @@ def attribute(f):
             p.add("C05")        # a failed replica that is not detached (or a healthy one that is)
         if ev == "Snapshot":
             p.add("C13")        # who is (not) in service after a snapshot that failed on somebody
+        if ev in ("Snapshot", "Resize") and (f.get("a", {}).get("S") or f.get("a", {}).get("F")):
+            p.add("C05")        # a replica that failed a fanned-out call and is (not) marked failed / detached
     if f.get("a", {}).get("oob"):
         p.add("C01")        # the controller's range check
     if rules & {"ReadOnly", "RoFresh", "WriteGate"}:
